@@ -1,7 +1,10 @@
 //! Library face of `tv`: the plans (which engines decide which property), shared with the fuzz targets.
+pub mod accept;
 pub mod plans;
 
-#[cfg(feature = "std")]
+#[cfg(feature = "eyepatch")]
+pub const FLAVOUR: &str = "eyep";
+#[cfg(all(feature = "std", not(feature = "eyepatch")))]
 pub const FLAVOUR: &str = "all";
-#[cfg(not(feature = "std"))]
+#[cfg(all(not(feature = "std"), not(feature = "eyepatch")))]
 pub const FLAVOUR: &str = "nostd";
